@@ -3,7 +3,8 @@
 
   tools/refcheck.py <dir containing R*/patch.diff> [<name prefix>] [--keep]
 
-Applies each patch to /repo, runs all registered checks in parallel (evidence diverted), reverts /repo at once.
+Applies each patch to a scratch worktree of /repo HEAD (the checks read it through EDGEGRAPH_REPO; /repo itself is never touched), runs all
+registered checks in parallel (evidence diverted), removes the worktree at once.
 With --keep the patch and the result are stored under /verif/seeded/keep-<prefix>-<R>/ ."""
 import concurrent.futures as cf
 import json
@@ -20,8 +21,11 @@ def sh(cmd, cwd=None):
     return p.returncode, p.stdout + p.stderr
 
 
+WT = [None]
+
+
 def run_check(pid, tier="quick"):
-    rc, out = sh(f"VERIF_EVIDENCE_DIR=/tmp/verif_ref_evidence VERIF_REPLAY_DIR=/tmp/verif_ref_replays /venv/bin/python -m sa.check {pid} --tier {tier}", cwd=V)
+    rc, out = sh(f"EDGEGRAPH_REPO={WT[0]} VERIF_EVIDENCE_DIR=/tmp/verif_ref_evidence VERIF_REPLAY_DIR=/tmp/verif_ref_replays /venv/bin/python -m sa.check {pid} --tier {tier}", cwd=V)
     lines = [l for l in out.splitlines() if l.startswith(("  rule=", "UNDECIDED", "ANALYSIS-ERROR", "Traceback"))]
     return pid, rc, lines[:4]
 
@@ -34,15 +38,19 @@ def main():
     pids = [c["property_id"] for c in json.load(open(V / "MANIFEST.json"))["checks"]]
     bad = 0
     for d in sorted(p for p in base.iterdir() if (p / "patch.diff").exists()):
-        rc, out = sh(f"git -C /repo apply {d}/patch.diff")
+        WT[0] = f"/tmp/wt/ref-{prefix}-{d.name}"
+        sh(f"git -C /repo worktree remove --force {WT[0]}")
+        sh(f"git -C /repo worktree add -q --detach {WT[0]} HEAD")
+        rc, out = sh(f"git apply {d}/patch.diff", cwd=WT[0])
         if rc:
             print(f"{prefix}-{d.name}: PATCH DOES NOT APPLY ({out.strip()[:100]})")
+            sh(f"git -C /repo worktree remove --force {WT[0]}")
             continue
         try:
-            with cf.ThreadPoolExecutor(16) as ex:
+            with cf.ThreadPoolExecutor(7) as ex:
                 results = list(ex.map(run_check, pids))
         finally:
-            sh("git -C /repo checkout -- . && git -C /repo clean -fdq edgegraph")
+            sh(f"git -C /repo worktree remove --force {WT[0]}")
         fails = [(p, rc, l) for p, rc, l in results if rc != 0]
         print(f"{prefix}-{d.name}: " + ("all 20 checks silent" if not fails else "ALARM " + ", ".join(f"{p}(exit {rc})" for p, rc, l in fails)))
         for p, rc, l in fails:
